@@ -1,24 +1,55 @@
+#!/usr/bin/env python3
+"""Print the prompt given to an independent sub-agent that seeds a property-breaking change.
+
+  tools/agent_prompt.py <PROPERTY-ID> <worktree-dir> [round-letter]
+
+The sub-agent is given only the property's text (id, title, statement, quantifier) and its own scratch
+worktree; nothing from /verif.  From the second round on it is also told, in one line each, which
+changes were already made for this property (summaries from seeded/<ID>-*/meta.json) so that it picks
+a different one.
+"""
+import glob
+import json
+import os
 import sys
-pid=sys.argv[1]
-prop=open(f"/tmp/prop-{pid}.txt").read()  # generated from properties.jsonl: id, title, statement, quantifier text
+
+VERIF = os.path.dirname(os.path.dirname(os.path.abspath(__file__)))
+pid, wt = sys.argv[1], sys.argv[2]
+rnd = sys.argv[3] if len(sys.argv) > 3 else "c"
+prop = None
+for l in open(os.path.join(VERIF, "properties.jsonl")):
+    p = json.loads(l)
+    if p["id"] == pid:
+        prop = p
+text = f"{prop['id']}: {prop['title']}\n\n{prop['statement']}\n\nMust hold for: {prop['quantifier']['text']}\n"
+taken = []
+for m in sorted(glob.glob(os.path.join(VERIF, "seeded", pid + "-*", "meta.json"))):
+    if os.path.basename(os.path.dirname(m)) >= f"{pid}-{rnd}":
+        continue
+    s = json.load(open(m)).get("summary", "")
+    taken.append("  - " + s[:420].replace("\n", " "))
+avoid = ""
+if taken:
+    avoid = "\nChanges ALREADY TAKEN by earlier rounds for this property (pick something DIFFERENT: another site, another mechanism, another part of the property's statement):\n" + "\n".join(taken) + "\n"
+
 print(f"""You are helping to evaluate a verification tool by seeding a realistic defect ("mutant") into a Rust code base.
 
-The code base is a CosmWasm perpetual-futures protocol (margined-protocol/perpetuals): a constant-product virtual AMM (contracts/margined_vamm), a margin engine with a reply-driven position state machine (contracts/margined_engine), insurance fund, fee pool, price feed, and shared packages (packages/*). You have your OWN scratch git worktree of it at /tmp/wt-{pid} . Work ONLY inside /tmp/wt-{pid} . Do NOT read or touch /verif or /repo (they are off limits), and do not use the network (there is none; always pass --offline to cargo and set CARGO_NET_OFFLINE=true).
+The code base is a CosmWasm perpetual-futures protocol (margined-protocol/perpetuals): a constant-product virtual AMM (contracts/margined_vamm), a margin engine with a reply-driven position state machine (contracts/margined_engine), insurance fund, fee pool, price feed, and shared packages (packages/*). You have your OWN scratch git worktree of it at {wt} . Work ONLY inside {wt} . Do NOT read or touch /verif or /repo (they are off limits), and do not use the network (there is none; always pass --offline to cargo and set CARGO_NET_OFFLINE=true).
 
 The property that should hold for this code base:
 
 ---
-{prop}---
-
+{text}---
+{avoid}
 Your task: make ONE small source change (a few lines, in non-test source files under contracts/ or packages/) that BREAKS this property, such that
   1. the workspace still compiles, and
-  2. the ENTIRE existing test suite still passes unedited:  cd /tmp/wt-{pid} && CARGO_NET_OFFLINE=true cargo test --workspace --offline 2>&1 | grep -E "^test result|FAILED|failed"   (all 410 tests must pass; you must not edit, delete or ignore any existing test), and
+  2. the ENTIRE existing test suite still passes unedited:  cd {wt} && CARGO_NET_OFFLINE=true cargo test --workspace --offline 2>&1 | grep -E "^test result|FAILED|failed"   (all 410 tests must pass; you must not edit, delete or ignore any existing test), and
   3. the breakage needs something SPECIFIC to manifest - a particular multi-step sequence of operations, an unusual input or boundary value, a particular configuration, a particular ordering within a block, two cooperating sites that each look fine alone, etc. - NOT something ordinary use would expose at once (that is why the existing tests still pass). Think like a subtle, realistic bug a code reviewer could miss: a flipped comparison at a boundary, a wrong variable in a rarely taken reply arm, a missing state update on one path, a rounding direction, a sign in one branch, validation against the wrong field, etc.
 
-Then write a DEMONSTRATION: a new Rust integration-style test (put it in a NEW file, e.g. contracts/margined_engine/src/testing/seeded_demo.rs registered with a `mod` line in that crate's testing/mod.rs, or an equivalent new test file in the relevant crate; use the existing test helpers in packages/margined_utils/src/scenarios and the existing tests as examples of how to drive the contracts with cw-multi-test) that PASSES on the original code and FAILS with your change, because it observes the property being violated through the public API (execute messages, queries, balances). Verify both: run the demo test with your change applied (must fail) and with the change reverted via `git stash`/manual revert of only the source change (must pass).
+Then write a DEMONSTRATION: a new Rust integration-style test (put it in a NEW file, e.g. contracts/margined_engine/src/testing/seeded_demo.rs registered with a `mod` line in that crate's testing/mod.rs, or an equivalent new test file in the relevant crate; use the existing test helpers in packages/margined_utils/src/scenarios and the existing tests as examples of how to drive the contracts with cw-multi-test; the test function name must contain the word `seeded`) that PASSES on the original code and FAILS with your change, because it observes the property being violated through the public API (execute messages, queries, balances). Verify both: run the demo test with your change applied (must fail) and with the change reverted via manual revert of only the source change (must pass).
 
-Deliver, in the directory /tmp/wt-{pid}/seeded_out/ (create it):
+Deliver, in the directory {wt}/seeded_out/ (create it):
   - patch.diff : `git diff` of ONLY the source change (not the demo test),
-  - demo.diff  : `git diff`/new-file diff of ONLY the demonstration test (so that patch.diff and demo.diff can be applied independently with `git apply`),
-  - meta.json  : {{"property": "{pid}", "summary": "<what the change does>", "needs": "<what it needs in order to manifest>", "files": [...], "demo_test": "<crate and test name>", "ran": "<the commands you ran and their results>"}}.
-Leave the worktree with BOTH the change and the demo test applied. Keep build output inside the worktree (default target dir). Be efficient: read the relevant source first (handle.rs / reply.rs / utils.rs / query.rs etc.), pick the change, then iterate. Report back briefly what you changed and the file paths.""")
+  - demo.diff  : `git diff`/new-file diff of ONLY the demonstration test (so that patch.diff and demo.diff can be applied independently with `git apply`; for a new untracked file use `git add -N <file>` before `git diff` so it shows up),
+  - meta.json  : {{"property": "{pid}", "summary": "<what the change does>", "needs_to_manifest": "<what it needs in order to manifest>", "files": [...], "demo_test": "<crate and test name>", "ran": "<the commands you ran and their results>"}}.
+Leave the worktree with BOTH the change and the demo test applied. Keep build output inside the worktree (default target dir). Be efficient: read the relevant source first (handle.rs / reply.rs / utils.rs / query.rs etc.), pick the change, then iterate. To save time while iterating run only the relevant crate's tests (cargo test -p <crate> --offline), and the whole workspace once at the end. Report back briefly what you changed and the file paths.""")
